@@ -24,9 +24,9 @@ Ops
 * `parse <inc> T N`  → `ok <size> <anon> <hyp> | <writes> | <cursor list> | <head list>` (hyp: the hypotheses of `emitdata_image_ev` hold) / `error <msg>` / `undef <msg>`
 * `full <inc> T N`   → `ok <size> | <image>` / `error …` / `undef …` / `emit-error`
 * `spec <inc> T N`   → `ok <size> <nswitch> <nreinit> | <writes> | <image>` / `error <msg>`
-* `class <inc> T N`  → which refinement theorem of `Props/C07.lean` covers the pair: `braced` / `elided`
-                      (`parseinit_refines_ref`: no designators; fully braced, resp. with brace elision) or
-                      `none:<first failing hypothesis>` (`inc`, `tywf`, `desig`, `top`)
+* `class <inc> T N`  → is the pair in the class of `parseinit_refines_ref` (`Props/C07.lean`): `braced` / `elided`
+                      (no designators; fully braced, resp. with brace elision), `desig` (with designators), or
+                      `none:<first failing hypothesis>` (`tywf`, `top`, `switch`)
 -/
 
 open CprocVerif.Init CprocVerif.Image CprocVerif.InitRef CprocVerif.InitSim
@@ -234,12 +234,12 @@ def step (line : String) : String :=
   | ["class", inc, t, n] =>
     match parseTyIni inc t n with
     | some (inc, ty, ini) =>
-      if inc then "none:inc"
-      else if !tyWf ty then "none:tywf"
-      else if !noDesig ini then "none:desig"
+      if !tyWfFor ty inc then "none:tywf"
       else if !topOK ty ini then "none:top"
-      else if refClass ty inc ini then (if fullyBraced ty ini then "braced" else "elided")
-      else "none:other"
+      else if !noSwitch ty inc ini then "none:switch"
+      else if !refClass ty inc ini then "none:other"
+      else if !noDesig ini then "desig"
+      else if fullyBraced ty ini then "braced" else "elided"
     | none => "bad-op"
   | _ => "bad-op"
 
